@@ -377,8 +377,11 @@ func newFixture(cfg sut.Config, masters, reps, spare int, variant string) (*Fixt
 	topo.SetInfoFromTopo(cl)
 	cl.SetPassword(cfg.Password)
 	fixtureSerial++
-	if cfg.Password != "" && fixtureSerial%2 == 0 {
+	switch {
+	case cfg.Password != "" && fixtureSerial%3 == 0:
 		cl.SetHandshakeGap(3 * time.Millisecond)
+	case fixtureSerial%3 == 1:
+		cl.SetHandshakeCoalesce(true)
 	}
 	cfg.Servers = nil
 	for i := 0; i < masters && i < 2; i++ {
